@@ -185,6 +185,28 @@ def _structural_perturbations(rnd, meta):
     if rnd.random() < 0.15:
         f = rnd.choice([0, 50, 100])
         out.append(["filter_stats", f, rnd.choice([0, 100, 200])])
+    multi = meta["n_partitions"] > 1 or (meta["ndim"] == 2 and meta["dimension_types"][0] == "CA_SUBVAR")
+    if multi and rnd.random() < 0.5:
+        # two tables of one stack with the same title (two sub-variables / categories that
+        # carry the same label)
+        d = meta["dims"][0]
+        valid = [k for k, e in enumerate(d["elements"]) if not e["missing"]]
+        if d["raw_idx"] >= 0 and len(valid) >= 2:
+            i, j = rnd.sample(valid[:12], 2) if len(valid[:12]) >= 2 else (valid[0], valid[1])
+            out.append(["duplabel", d["raw_idx"], i, j])
+    if rnd.random() < 0.2:
+        # `type.order`: the data along this dimension is in the listed order (honoured since
+        # 3.0.33); any permutation of the ids is a valid (other) table
+        cands = [d for d in meta["dims"] if d["raw_idx"] >= 0 and 2 <= len(d["elements"]) <= 12
+                 and len({json.dumps(e["id"]) for e in d["elements"]}) == len(d["elements"])]
+        if cands:
+            d = rnd.choice(cands)
+            ids = [e["id"] for e in d["elements"]]
+            perm = list(ids)
+            rnd.shuffle(perm)
+            if rnd.random() < 0.4:
+                perm = ids[::-1]
+            out.append(["typedef_order", d["raw_idx"], perm])
     return out
 
 
@@ -427,7 +449,14 @@ def generate(run_seed, tier_cfg):
                 specs["s%d" % k] = _cube_spec(rnd, "r%d" % k, "t0", scal)
         knobs["mode"] = "deck"
         knobs["max_steps"] = rnd.choice(tier_cfg.get("sweep_steps", [150, 220]))
-        knobs["deck_script"] = rnd.choice(["exporter", "alphabetical", "reverse"])
+        knobs["deck_script"] = rnd.choice(["exporter", "alphabetical", "reverse", "numeric-heavy"])
+        mar = tier_cfg.get("marathon", {"share_of_T9": 0.03, "steps": 4000})
+        if rnd.random() < mar["share_of_T9"]:
+            # a marathon: the same deck rendered over and over in ONE process, thousands of
+            # reads - what accumulates (counters, bounded caches, leaked levels) gets its chance
+            knobs["marathon"] = True
+            knobs["max_steps"] = mar["steps"]
+            knobs["deck_script"] = rnd.choice(["exporter", "numeric-heavy"])
     elif topo == "T8":
         # per-dimension transform dicts composed into per-table transforms: the dict object
         # written for the rows of one table is the columns dict of another
@@ -460,6 +489,23 @@ def generate(run_seed, tier_cfg):
             args["r1"] = _response_arg(rnd, knobs, rnd.choice(g["d2"]))
         specs["s1"] = _cube_spec(rnd, "r1", "t1", scal)
         specs["s3"] = _cube_spec(rnd, "r1", "t0", scal)
+        if rnd.random() < 0.5:
+            # two analyses that differ in one setting but share the nested `elements` /
+            # `order` / `insertions` objects of a dimension (a copied-and-edited analysis)
+            d0 = json.loads(args["d0"]["json"])
+            shared_keys = [k for k in ("elements", "order", "insertions") if k in d0]
+            if shared_keys:
+                for k in shared_keys:
+                    args["e_" + k] = {"kind": "transforms", "json": json.dumps(d0[k], separators=(",", ":"))}
+                rest = {k: {"lit": json.dumps(v)} for k, v in d0.items() if k not in shared_keys}
+                tplA = dict(rest, **{k: "e_" + k for k in shared_keys})
+                tplB = dict({k: "e_" + k for k in shared_keys}, prune={"lit": json.dumps(not d0.get("prune", False))})
+                if "insertions" in d0 and "insertions" not in shared_keys:
+                    pass
+                args["t4"] = {"kind": "transforms", "compose": {"rows_dimension": tplA}}
+                args["t5"] = {"kind": "transforms", "compose": {"rows_dimension": tplB}}
+                specs["s4"] = _cube_spec(rnd, "r0", "t4", scal)
+                specs["s5"] = _cube_spec(rnd, "r0", "t5", scal)
     else:
         raise AssertionError(topo)
 
@@ -488,8 +534,11 @@ def generate(run_seed, tier_cfg):
     # forms: outside T6 responses are mostly dicts (the only form that can be edited)
     if topo != "T6":
         for aid in sorted(args):
-            if args[aid]["kind"] == "response" and rnd.random() < 0.12:
+            if args[aid]["kind"] == "response" and "view_of" not in args[aid] and rnd.random() < 0.12:
                 args[aid]["form"] = rnd.choice(["json", "toggle", "json-toggle"])
+            elif args[aid]["kind"] == "response" and "F1" in faults and rnd.random() < 0.02:
+                # text that parses, but not to an object: every read fails, and must keep failing
+                args[aid]["form"] = rnd.choice(["double-json", "json-array"])
 
     n_clients = rnd.choice(tier_cfg["clients"])
     clients = {"c%d" % i: {"private": False} for i in range(n_clients)}
